@@ -46,7 +46,7 @@ end
 
 
 /-- the type an enum method decodes into -/
-def enumCarrierTy (d : Decl) : GoTy := match d.ty with | .strct [fl] => fl.ty | c => c
+def enumCarrierTy (d : Decl) : GoTy := enumCarrierOf d.ty
 
 /-! ### C03: the Go type at every typed position matches the schema's type -/
 
